@@ -154,6 +154,17 @@ func Catalogue(env *world.Env) []CatEntry {
 	add("SaveKeyValue/delete", base, uni.Call(A0, A0, vmcommon.BuiltInFunctionSaveKeyValue, []byte("k1"), []byte{}))
 	add("ChangeOwnerAddress/local", base, uni.Call(A0, S0, vmcommon.BuiltInFunctionChangeOwnerAddress, B0))
 	add("ChangeOwnerAddress/remote-sender-side", base, uni.Call(A0, S1, vmcommon.BuiltInFunctionChangeOwnerAddress, B0))
+	// the destination-side half of the owner's cross-shard calls (forwarded user transaction, A4 ii)
+	for _, fnArgs := range []struct {
+		name string
+		act  world.Action
+	}{{"ChangeOwnerAddress/delivery", uni.Call(A0, S1, vmcommon.BuiltInFunctionChangeOwnerAddress, B0)}, {"ClaimDeveloperRewards/delivery", uni.Call(A0, S1, vmcommon.BuiltInFunctionClaimDeveloperRewards)}} {
+		if nw, legs := env.Step(base, fnArgs.act); len(legs) > 0 && legs[0].OK() && len(nw.Inflight) == 1 {
+			if _, dl := env.Step(nw, uni.Deliver(0)); len(dl) > 0 && dl[0].OK() {
+				add(fnArgs.name, nw, uni.Deliver(0))
+			}
+		}
+	}
 	add("ClaimDeveloperRewards/local", base, uni.Call(A0, S0, vmcommon.BuiltInFunctionClaimDeveloperRewards))
 	add("ClaimDeveloperRewards/async", base, withType(uni.Call(A0, S0, vmcommon.BuiltInFunctionClaimDeveloperRewards), vmcommon.AsynchronousCall))
 	add("ClaimDeveloperRewards/remote-sender-side", base, uni.Call(A0, S1, vmcommon.BuiltInFunctionClaimDeveloperRewards))
